@@ -247,6 +247,12 @@ def run_simfd(c):
     mesh, dim, L = build_mesh(c)
     mat = make_law(c["law"], dim, c["params"], c.get("T1"), c.get("T2"))
     mat.eta = c.get("eta", 0.0)
+    if c.get("tau"):
+        g0 = mesh.groupElem
+        nPg = np.asarray(g0.Get_weightedJacobian_e_pg(MatrixType.rigi)).shape[1]
+        Tdir = np.tile(np.asarray((c["T1"][:dim] + [0.0, 0.0, 0.0])[:3], dtype=float), (g0.Ne, nPg, 1))
+        mat.Set_active_stress_vec(FeArray.asfearray(Tdir))
+        mat.active_stress = c["tau"]
     simu = Simulations.HyperElastic(mesh, mat, absTol=1e-9, maxIter=40, verbosity=False)
     simu.rho = c["rho"]
     try:
